@@ -1478,7 +1478,7 @@ def run(chk: core.Check):
         handle_batch(chk, [c for c in corpus if c["kind"] != "session"])
         handle_sessions(chk, [c for c in corpus if c["kind"] == "session"])
     cases = [gen_case(chk, rng, max_m, max_depth, max_ops, nmax) for _ in range(n)]
-    ns = chk.pick(120, 900)
+    ns = chk.pick(120, 600)
     sessions = [gen_session(chk, rng, max_m, max_depth, max_ops, nmax, chk.pick(4, 6)) for _ in range(ns)]
     pipelined(chk, [cases[i:i + 100] for i in range(0, len(cases), 100)], prepare_batch, finish_batch)
     pipelined(chk, [sessions[i:i + 30] for i in range(0, len(sessions), 30)], prepare_sessions, finish_sessions)
